@@ -72,8 +72,10 @@ class Recorder:
 
 
 def names(rng, n):
+    """distinct node names; the pool deliberately contains names that are prefixes / substrings of one
+    another (Alice/Alice2, n1/n10, A/AB) and names differing only in case: a name is an opaque label"""
     pool = ["Alice", "Bob", "Charlie", "David", "Eve", "Faythe", "Grace", "Heidi", "Ivan", "Judy", "Kim", "Leo",
-            "n0", "n1", "x", "Zed"]
+            "n0", "n1", "x", "Zed", "Alice2", "n10", "n11", "A", "AB", "B", "Bo", "alice", "node", "node1"]
     return rng.sample(pool, n)
 
 
